@@ -46,6 +46,15 @@ pub broadcast axiom fn ax_slice_len_bound<T>(s: &[T])
 pub broadcast axiom fn ax_u8_slice_len_bound(s: &[u8])
     ensures #[trigger] s@.len() <= isize::MAX;
 
+/// T-std: `Vec<u8>` as an ordered-collection key.  std's `Ord for Vec<u8>` is the lexicographic order on the
+/// contents, so two keys compare Equal exactly when their contents are equal; in the specification language a
+/// `Vec<u8>` value is identified with its contents (extensionality).  Needed by vstd's BTreeSet contracts.
+pub broadcast axiom fn ax_vec_u8_ext(a: Vec<u8>, b: Vec<u8>)
+    requires #[trigger] a@ == #[trigger] b@
+    ensures a == b;
+pub broadcast axiom fn ax_vec_u8_key_model()
+    ensures #[trigger] vstd::std_specs::btree::key_obeys_cmp_spec::<Vec<u8>>();
+
 pub broadcast group group_iter_seq {
     ax_slice_len_bound, ax_u8_slice_len_bound, lemma_le_int_nonneg,
     iter_seq_array, iter_seq_slice, iter_seq_vec, iter_seq_vec_ref, iter_seq_array_ref, ax_arr_of,
